@@ -59,13 +59,20 @@ func main() {
 	spec.ID = prop
 	switch mode {
 	case "quick", "thorough":
-		os.Exit(runCheck(spec, mode))
+		privateBuild = true
+		sweepStaleBins()
+		rc := runCheck(spec, mode)
+		cleanupBins()
+		os.Exit(rc)
 	case "replay":
 		if len(os.Args) < 4 {
 			fmt.Fprintln(os.Stderr, "replay needs a file")
 			os.Exit(2)
 		}
-		os.Exit(runReplay(spec, os.Args[3]))
+		privateBuild = true
+		rc := runReplay(spec, os.Args[3])
+		cleanupBins()
+		os.Exit(rc)
 	default:
 		fmt.Fprintf(os.Stderr, "unknown mode %s\n", mode)
 		os.Exit(2)
@@ -122,6 +129,38 @@ func overlayArgs() []string {
 	return []string{"-overlay=" + p}
 }
 
+// privateBuild: a check links its own copy of the engine (name.<pid>.test, removed at exit), so that a second
+// run started meanwhile - another check, another tier, a development script working on a modified tree - can
+// never replace the binary this run's children are (re)started from. The Go build cache makes the extra link cheap.
+var (
+	privateBuild bool
+	privateBins  []string
+)
+
+// stale private binaries of runs that were killed before they could clean up
+func sweepStaleBins() {
+	files, _ := filepath.Glob(filepath.Join(buildDir(), "*.test"))
+	for _, f := range files {
+		base := strings.TrimSuffix(filepath.Base(f), ".test")
+		i := strings.LastIndexByte(base, '.')
+		if i < 0 {
+			continue
+		}
+		if _, err := strconv.Atoi(base[i+1:]); err != nil {
+			continue
+		}
+		if st, err := os.Stat(f); err == nil && time.Since(st.ModTime()) > 3*time.Hour {
+			os.Remove(f)
+		}
+	}
+}
+
+func cleanupBins() {
+	for _, b := range privateBins {
+		os.Remove(b)
+	}
+}
+
 func build(spec Spec) (string, error) {
 	name := strings.ReplaceAll(spec.Engine, "/", "_")
 	if spec.Race {
@@ -130,7 +169,13 @@ func build(spec Spec) (string, error) {
 	if repoDir != "/repo" {
 		name += "." + fmt.Sprintf("%x", sha1.Sum([]byte(repoDir)))[:8]
 	}
+	if privateBuild {
+		name += fmt.Sprintf(".%d", os.Getpid())
+	}
 	bin := filepath.Join(buildDir(), name+".test")
+	if privateBuild {
+		privateBins = append(privateBins, bin)
+	}
 	args := []string{"test", "-c", "-tags", "verif", "-vet=off", "-o", bin}
 	if spec.Race {
 		args = append(args, "-race")
